@@ -356,3 +356,121 @@ class Folder:
                         r = list(r)
                     return r
         raise NotConst("call %s" % fn)
+
+
+class _Return(Exception):
+    def __init__(self, value):
+        self.value = value
+
+
+class _Break(Exception):
+    pass
+
+
+class _Continue(Exception):
+    pass
+
+
+class ObjEnv(dict):
+    """Attribute store of an object under partial evaluation (``self``)."""
+
+
+def exec_block(folder, stmts, env, module, cls=None, budget=None):
+    """Partial evaluation of straight-line configuration code over constants
+    (used for Calendar.set_mode with each key of the finite MODES table).
+    Supports assignments (names, tuples, attributes of an ObjEnv), if, for
+    over constant sequences, augmented assignment and expression statements
+    without effect.  Anything else raises NotConst."""
+    budget = budget if budget is not None else [20000]
+
+    class F(Folder):
+        pass
+
+    def ev(e):
+        return _fold_with_objs(folder, e, module, cls, env)
+
+    def assign(t, v):
+        if isinstance(t, ast.Name):
+            env[t.id] = v
+        elif isinstance(t, (ast.Tuple, ast.List)):
+            vals = list(v)
+            if len(vals) != len(t.elts):
+                raise NotConst("unpack arity")
+            for a, b in zip(t.elts, vals):
+                assign(a, b)
+        elif isinstance(t, ast.Attribute) and isinstance(t.value, ast.Name) \
+                and isinstance(env.get(t.value.id), ObjEnv):
+            env[t.value.id][t.attr] = v
+        else:
+            raise NotConst("assignment target %s" % U(t))
+
+    for st in stmts:
+        budget[0] -= 1
+        if budget[0] < 0:
+            raise NotConst("budget exhausted")
+        if isinstance(st, ast.Expr):
+            if isinstance(st.value, ast.Constant):
+                continue
+            ev(st.value)
+        elif isinstance(st, ast.Assign):
+            v = ev(st.value)
+            for t in st.targets:
+                assign(t, v)
+        elif isinstance(st, ast.AugAssign):
+            cur = ev(st.target)
+            v = ev(st.value)
+            op = _BIN.get(type(st.op))
+            if op is None:
+                raise NotConst("augassign op")
+            assign(st.target, op(cur, v))
+        elif isinstance(st, ast.If):
+            if ev(st.test):
+                exec_block(folder, st.body, env, module, cls, budget)
+            else:
+                exec_block(folder, st.orelse, env, module, cls, budget)
+        elif isinstance(st, ast.For):
+            seq = ev(st.iter)
+            if isinstance(seq, dict):
+                seq = list(seq)
+            broke = False
+            for item in list(seq):
+                assign(st.target, item)
+                try:
+                    exec_block(folder, st.body, env, module, cls, budget)
+                except _Break:
+                    broke = True
+                    break
+                except _Continue:
+                    continue
+            if not broke:
+                exec_block(folder, st.orelse, env, module, cls, budget)
+        elif isinstance(st, ast.Return):
+            raise _Return(ev(st.value) if st.value is not None else None)
+        elif isinstance(st, ast.Break):
+            raise _Break()
+        elif isinstance(st, ast.Continue):
+            raise _Continue()
+        elif isinstance(st, ast.Pass):
+            continue
+        else:
+            raise NotConst("statement %s" % type(st).__name__)
+    return env
+
+
+def _fold_with_objs(folder, e, module, cls, env):
+    """Folder.fold, with attribute reads on ObjEnv values resolved against
+    the object's store first and the class constants second."""
+    class Sub(Folder):
+        def _attr(self, e2, module2, cls2, env2):
+            if isinstance(e2.value, ast.Name) and isinstance(
+                    env2.get(e2.value.id), ObjEnv):
+                obj = env2[e2.value.id]
+                if e2.attr in obj:
+                    return obj[e2.attr]
+                if cls2 is not None:
+                    return self.class_const(cls2, e2.attr)
+                raise NotConst("attribute %s unset" % U(e2))
+            return Folder._attr(self, e2, module2, cls2, env2)
+    sub = Sub(folder.model)
+    sub._cache = folder._cache
+    return sub.fold(e, module, cls, env)
